@@ -131,6 +131,10 @@ var c09Values = []c09Shape{
 	{Name: "SRV2", Value: "NOERROR;SRV;1 2 81 srv.example.net", RCode: "NOERROR", RR: "SRV", Val: "1 2 81 srv.example.net"},
 	{Name: "MX3", Value: "NOERROR;MX;10 mail2.example.net", RCode: "NOERROR", RR: "MX", Val: "10 mail2.example.net"},
 	{Name: "TXT3", Value: "NOERROR;TXT;hello2", RCode: "NOERROR", RR: "TXT", Val: "hello2"},
+	// (text that itself contains the field separator)
+	{Name: "TXTsemi", Value: "NOERROR;TXT;v=DMARC1;p=none", RCode: "NOERROR", RR: "TXT", Val: "v=DMARC1;p=none"},
+	{Name: "TXTsemi2", Value: "NOERROR;TXT;v=DMARC1;p=reject", RCode: "NOERROR", RR: "TXT", Val: "v=DMARC1;p=reject"},
+	{Name: "TXTsemi3", Value: "NOERROR;TXT;v=DMARC1", RCode: "NOERROR", RR: "TXT", Val: "v=DMARC1"},
 	{Name: "AAAA2", Value: "NOERROR;AAAA;::2", RCode: "NOERROR", RR: "AAAA", Val: "::2"},
 	// Record types without a value parser: the type is kept, the value is nil.
 	{Name: "NS", Value: "NOERROR;NS;ns1.example.net", RCode: "NOERROR", RR: "NS", Val: ""},
@@ -549,7 +553,7 @@ func init() {
 				pool := c09Full
 				if c.Rng.Intn(3) > 0 {
 					pool = nil
-					fam := [][]string{{"HTTPS", "HTTPSx", "HTTPS0", "HTTPS2"}, {"SVCB", "SVCB0", "SVCB0p"}, {"MX", "MX2", "MX3"}, {"SRV", "SRV2"}, {"TXT", "TXT2", "TXT3", "TXTupper"}, {"CN", "CNfull", "CN2", "CNupper", "CNmixedfull"}, {"A1", "A2", "A1full"}, {"AAAA", "AAAA2"}, {"NS", "SOA", "NOERRORkw"}, {"REFUSED", "REFUSEDfull", "NXDOMAIN", "SERVFAIL", "BADKEY", "BADTIME", "NOTAUTH", "BADCOOKIE"}}[c.Rng.Intn(10)]
+					fam := [][]string{{"HTTPS", "HTTPSx", "HTTPS0", "HTTPS2"}, {"SVCB", "SVCB0", "SVCB0p"}, {"MX", "MX2", "MX3"}, {"SRV", "SRV2"}, {"TXT", "TXT2", "TXT3", "TXTupper", "TXTsemi", "TXTsemi2", "TXTsemi3"}, {"CN", "CNfull", "CN2", "CNupper", "CNmixedfull"}, {"A1", "A2", "A1full"}, {"AAAA", "AAAA2"}, {"NS", "SOA", "NOERRORkw"}, {"REFUSED", "REFUSEDfull", "NXDOMAIN", "SERVFAIL", "BADKEY", "BADTIME", "NOTAUTH", "BADCOOKIE"}}[c.Rng.Intn(10)]
 					for j := 0; j < 3+c.Rng.Intn(3); j++ {
 						v := util.Pick(c.Rng, c09Values).Name
 						if c.Rng.Intn(2) == 0 {
